@@ -1,4 +1,241 @@
-import PieModel.Build.Pie
+/-
+C12 — the five built-in output checkers: an output checked against the stamp of another output
+is consistent exactly when the documented relation holds between the two outputs; every output is
+consistent with its own stamp.  Tied to the checker table of the build model (`stdOStamp`,
+`stdOCheck`, `stdRStamp`, `stdRCheck`).
+-/
+import PieModel.Lib.Checkers
+import PieModel.Build.StdSem
+
 namespace PieModel
-theorem C12_placeholder : True := trivial
+
+open OChk
+
+section Generic
+set_option linter.unusedSectionVars false
+variable {T E O : Type} [DecidableEq T] [DecidableEq E] [DecidableEq O]
+
+/-! ### the documented relations -/
+
+/-- `EqualsChecker`: consistent iff the outputs are equal. -/
+theorem C12_equals_iff (o1 o2 : O) :
+    equalsCheck o2 (equalsStamp o1) = true ↔ o2 = o1 := by
+  unfold equalsCheck equalsStamp; exact decide_eq_true_iff
+
+/-- `OkEqualsChecker`: consistent iff equal `Ok` payloads, or both are errors (all errors are
+equivalent). -/
+theorem C12_okEquals_iff (o1 o2 : Out T E) :
+    okEqualsCheck o2 (okEqualsStamp o1) = true ↔
+      ((∃ t, o1 = .ok t ∧ o2 = .ok t) ∨ (o1.isErr = true ∧ o2.isErr = true)) := by
+  cases o1 <;> cases o2 <;> simp [okEqualsCheck, okEqualsStamp, Out.okVal, Out.isErr, eq_comm]
+
+/-- `ErrEqualsChecker`: consistent iff equal `Err` payloads, or both are successes (all successes
+are equivalent). -/
+theorem C12_errEquals_iff (o1 o2 : Out T E) :
+    errEqualsCheck o2 (errEqualsStamp o1) = true ↔
+      ((∃ e, o1 = .err e ∧ o2 = .err e) ∨ (o1.isErr = false ∧ o2.isErr = false)) := by
+  cases o1 <;> cases o2 <;> simp [errEqualsCheck, errEqualsStamp, Out.errVal, Out.isErr, eq_comm]
+
+/-- `ResultChecker`: consistent iff same `Ok`/`Err`-ness. -/
+theorem C12_result_iff (o1 o2 : Out T E) :
+    resultCheck o2 (resultStamp o1) = true ↔ o1.isErr = o2.isErr := by
+  simp [resultCheck, resultStamp, eq_comm]
+
+/-- `AlwaysConsistent`. -/
+theorem C12_always (o1 o2 : O) : alwaysCheck o2 (alwaysStamp o1) = true := rfl
+
+/-- Payload-level reading of `OkEqualsChecker`: it compares exactly the `Ok` payloads. -/
+theorem C12_okEquals_iff_okVal (o1 o2 : Out T E) :
+    okEqualsCheck o2 (okEqualsStamp o1) = true ↔ o2.okVal = o1.okVal := by
+  unfold okEqualsCheck okEqualsStamp; exact decide_eq_true_iff
+
+theorem C12_errEquals_iff_errVal (o1 o2 : Out T E) :
+    errEqualsCheck o2 (errEqualsStamp o1) = true ↔ o2.errVal = o1.errVal := by
+  unfold errEqualsCheck errEqualsStamp; exact decide_eq_true_iff
+
+/-- All errors are equivalent for `OkEqualsChecker`, whatever their payloads. -/
+theorem C12_okEquals_errors_equivalent (e1 e2 : E) :
+    okEqualsCheck (.err e2 : Out T E) (okEqualsStamp (.err e1 : Out T E)) = true := by
+  simp [okEqualsCheck, okEqualsStamp, Out.okVal]
+
+/-- All successes are equivalent for `ErrEqualsChecker`, whatever their payloads. -/
+theorem C12_errEquals_successes_equivalent (t1 t2 : T) :
+    errEqualsCheck (.ok t2 : Out T E) (errEqualsStamp (.ok t1 : Out T E)) = true := by
+  simp [errEqualsCheck, errEqualsStamp, Out.errVal]
+
+/-- An `Ok` and an `Err` are never consistent for `OkEquals`, `ErrEquals`, `Result`. -/
+theorem C12_mixed_inconsistent (t : T) (e : E) :
+    okEqualsCheck (.err e : Out T E) (okEqualsStamp (.ok t : Out T E)) = false ∧
+    okEqualsCheck (.ok t : Out T E) (okEqualsStamp (.err e : Out T E)) = false ∧
+    errEqualsCheck (.err e : Out T E) (errEqualsStamp (.ok t : Out T E)) = false ∧
+    errEqualsCheck (.ok t : Out T E) (errEqualsStamp (.err e : Out T E)) = false ∧
+    resultCheck (.err e : Out T E) (resultStamp (.ok t : Out T E)) = false ∧
+    resultCheck (.ok t : Out T E) (resultStamp (.err e : Out T E)) = false := by
+  simp [okEqualsCheck, okEqualsStamp, errEqualsCheck, errEqualsStamp, resultCheck, resultStamp,
+    Out.okVal, Out.errVal, Out.isErr]
+
+/-! ### every output is consistent with its own stamp -/
+
+theorem C12_reflexive_equals (o : O) : equalsCheck o (equalsStamp o) = true :=
+  (C12_equals_iff o o).mpr rfl
+
+theorem C12_reflexive_okEquals (o : Out T E) : okEqualsCheck o (okEqualsStamp o) = true :=
+  (C12_okEquals_iff_okVal o o).mpr rfl
+
+theorem C12_reflexive_errEquals (o : Out T E) : errEqualsCheck o (errEqualsStamp o) = true :=
+  (C12_errEquals_iff_errVal o o).mpr rfl
+
+theorem C12_reflexive_result (o : Out T E) : resultCheck o (resultStamp o) = true :=
+  (C12_result_iff o o).mpr rfl
+
+theorem C12_reflexive_always (o : O) : alwaysCheck o (alwaysStamp o) = true := rfl
+
+end Generic
+
+/-! ### the checker table of the build model -/
+
+/-- The harness' encoding of `Result<i64, i64>` outputs as `Int`s. -/
+def decodeOut (n : Int) : OChk.Out Int Int := if n ≥ 0 then .ok n else .err n
+
+theorem decodeOut_injective {a b : Int} (h : decodeOut a = decodeOut b) : a = b := by
+  unfold decodeOut at h
+  split at h <;> split at h <;> simp_all
+
+theorem decodeOut_okVal (n : Int) : (decodeOut n).okVal = if n ≥ 0 then some n else none := by
+  unfold decodeOut; split <;> rfl
+
+theorem decodeOut_errVal (n : Int) : (decodeOut n).errVal = if n < 0 then some n else none := by
+  unfold decodeOut
+  split
+  · rw [if_neg (by omega)]; rfl
+  · rw [if_pos (by omega)]; rfl
+
+theorem decodeOut_isErr (n : Int) : (decodeOut n).isErr = decide (n < 0) := by
+  unfold decodeOut
+  split
+  · simp [Out.isErr]; omega
+  · simp [Out.isErr]; omega
+
+theorem C12_std_agrees_0 (n1 n2 : Int) :
+    stdOCheck 0 n2 (stdOStamp 0 n1) = equalsCheck (decodeOut n2) (equalsStamp (decodeOut n1)) := by
+  rw [Bool.eq_iff_iff, C12_equals_iff]
+  simp only [stdOCheck, stdOStamp, beq_iff_eq, Stamp.int.injEq]
+  exact ⟨fun h => h ▸ rfl, decodeOut_injective⟩
+
+theorem C12_std_agrees_1 (n1 n2 : Int) :
+    stdOCheck 1 n2 (stdOStamp 1 n1) = okEqualsCheck (decodeOut n2) (okEqualsStamp (decodeOut n1)) := by
+  rw [Bool.eq_iff_iff, C12_okEquals_iff_okVal, decodeOut_okVal, decodeOut_okVal]
+  simp only [stdOCheck, stdOStamp, beq_iff_eq, Stamp.optInt.injEq]
+
+theorem C12_std_agrees_2 (n1 n2 : Int) :
+    stdOCheck 2 n2 (stdOStamp 2 n1) = errEqualsCheck (decodeOut n2) (errEqualsStamp (decodeOut n1)) := by
+  rw [Bool.eq_iff_iff, C12_errEquals_iff_errVal, decodeOut_errVal, decodeOut_errVal]
+  simp only [stdOCheck, stdOStamp, beq_iff_eq, Stamp.optInt.injEq]
+
+theorem C12_std_agrees_3 (n1 n2 : Int) :
+    stdOCheck 3 n2 (stdOStamp 3 n1) = resultCheck (decodeOut n2) (resultStamp (decodeOut n1)) := by
+  rw [Bool.eq_iff_iff, C12_result_iff, decodeOut_isErr, decodeOut_isErr]
+  simp only [stdOCheck, stdOStamp, beq_iff_eq, Stamp.bool.injEq]
+  exact eq_comm
+
+theorem C12_std_agrees_4 (n1 n2 : Int) :
+    stdOCheck 4 n2 (stdOStamp 4 n1) = alwaysCheck (decodeOut n2) (alwaysStamp (decodeOut n1)) := by
+  simp [stdOCheck, stdOStamp, alwaysCheck]
+
+/-- In the build model's table every output is consistent with its own stamp, for *every*
+checker id (including the harness' `ParityOut` and the ids that default to `AlwaysConsistent`). -/
+theorem C12_std_reflexive (c : Nat) (n : Int) : stdOCheck c n (stdOStamp c n) = true := by
+  simp [stdOCheck]
+
+/-- The documented relations, read directly on the `Int` encoding. -/
+theorem C12_std_iff_0 (n1 n2 : Int) : stdOCheck 0 n2 (stdOStamp 0 n1) = true ↔ n2 = n1 := by
+  simp [stdOCheck, stdOStamp]
+
+theorem C12_std_iff_1 (n1 n2 : Int) :
+    stdOCheck 1 n2 (stdOStamp 1 n1) = true ↔ (0 ≤ n1 ∧ n2 = n1) ∨ (n1 < 0 ∧ n2 < 0) := by
+  simp only [stdOCheck, stdOStamp, beq_iff_eq, Stamp.optInt.injEq]
+  split <;> split <;> simp <;> omega
+
+theorem C12_std_iff_2 (n1 n2 : Int) :
+    stdOCheck 2 n2 (stdOStamp 2 n1) = true ↔ (n1 < 0 ∧ n2 = n1) ∨ (0 ≤ n1 ∧ 0 ≤ n2) := by
+  simp only [stdOCheck, stdOStamp, beq_iff_eq, Stamp.optInt.injEq]
+  split <;> split <;> simp <;> omega
+
+theorem C12_std_iff_3 (n1 n2 : Int) :
+    stdOCheck 3 n2 (stdOStamp 3 n1) = true ↔ (n1 < 0 ↔ n2 < 0) := by
+  simp only [stdOCheck, stdOStamp, beq_iff_eq, Stamp.bool.injEq, decide_eq_decide]
+  exact Iff.comm
+
+/-- Resource checkers: a value checked against its own (successfully produced) stamp is
+consistent, unless the checker itself fails. -/
+theorem C12_std_rcheck_reflexive (c : Nat) (v : Option Int) (s : Stamp)
+    (h : stdRStamp c v = .ok s) :
+    stdRCheck c v s = .ok true ∨ ∃ e, stdRCheck c v s = .error e := by
+  unfold stdRStamp at h
+  split at h
+  · cases h
+  · cases h
+    unfold stdRCheck
+    split
+    · exact .inr ⟨_, rfl⟩
+    · exact .inl (by simp)
+
+/-- Resource checkers that cannot fail in `check` (ids `< 10` and ids `≥ 30`): consistent. -/
+theorem C12_std_rcheck_reflexive_of_not_failing (c : Nat) (v : Option Int) (s : Stamp)
+    (hc : c < 10 ∨ 30 ≤ c) (h : stdRStamp c v = .ok s) : stdRCheck c v s = .ok true := by
+  unfold stdRStamp at h
+  split at h
+  · cases h
+  · cases h
+    unfold stdRCheck
+    rw [if_neg (by omega)]
+    simp
+
+/-- The non-failing built-in resource checkers (`c < 10`): stamping succeeds and the value is
+consistent with its own stamp. -/
+theorem C12_std_rcheck_reflexive_lt_10 (c : Nat) (v : Option Int) (s : Stamp) (hc : c < 10)
+    (h : stdRStamp c v = .ok s) : stdRCheck c v s = .ok true :=
+  C12_std_rcheck_reflexive_of_not_failing c v s (.inl hc) h
+
+theorem C12_std_rstamp_ok_lt_30 (c : Nat) (v : Option Int) (hc : c < 30) :
+    stdRStamp c v = .ok (stdRStampCore c v) := by
+  unfold stdRStamp
+  rw [if_neg (by omega)]
+
+/-- The failing case is exactly `FailWhen(k)` on content `k`. -/
+theorem C12_std_rcheck_error_iff (c : Nat) (v : Option Int) (s : Stamp) (e : Int) :
+    stdRCheck c v s = .error e ↔ (10 ≤ c ∧ c < 30 ∧ v = some ((c : Int) - 10) ∧ e = (c : Int) - 10) := by
+  unfold stdRCheck
+  split
+  · rename_i h
+    simp only [Except.error.injEq]
+    constructor
+    · intro he; exact ⟨h.1, h.2.1, h.2.2, he.symm⟩
+    · intro he; exact he.2.2.2.symm
+  · rename_i h
+    constructor
+    · intro he; cases he
+    · intro he; exact absurd ⟨he.1, he.2.1, he.2.2.1⟩ h
+
+/-! ### non-vacuity -/
+
+example : okEqualsCheck (.err 7 : Out Nat Nat) (okEqualsStamp (.err 3 : Out Nat Nat)) = true := by decide
+example : okEqualsCheck (.ok 7 : Out Nat Nat) (okEqualsStamp (.ok 3 : Out Nat Nat)) = false := by decide
+example : errEqualsCheck (.ok 7 : Out Nat Nat) (errEqualsStamp (.ok 3 : Out Nat Nat)) = true := by decide
+example : errEqualsCheck (.err 7 : Out Nat Nat) (errEqualsStamp (.err 3 : Out Nat Nat)) = false := by decide
+example : resultCheck (.err 7 : Out Nat Nat) (resultStamp (.ok 7 : Out Nat Nat)) = false := by decide
+example : equalsCheck (.ok 7 : Out Nat Nat) (equalsStamp (.err 7 : Out Nat Nat)) = false := by decide
+example : stdOCheck 1 (-5) (stdOStamp 1 (-9)) = true := by decide
+example : stdOCheck 1 5 (stdOStamp 1 9) = false := by decide
+example : stdOCheck 2 5 (stdOStamp 2 9) = true := by decide
+example : stdOCheck 3 (-1) (stdOStamp 3 0) = false := by decide
+example : decodeOut 0 = .ok 0 ∧ decodeOut (-1) = .err (-1) := by decide
+/-- `FailWhen(2)` (id 12) really fails on its own stamp: the disjunction in
+`C12_std_rcheck_reflexive` is needed. -/
+example : stdRStamp 12 (some 2) = .ok (.optInt (some 2)) ∧
+    stdRCheck 12 (some 2) (.optInt (some 2)) = .error 2 := by
+  constructor <;> rfl
+example : stdRStamp 32 (some 2) = .error 2 := by rfl
+example : stdRCheck 1 (some 7) (.optInt (some 1)) = .ok true := by rfl
+
 end PieModel
